@@ -320,6 +320,11 @@ def random_frame(rng):
         [["county_classification"], ["postal_code", "district"], ["district"], []][int(rng.integers(0, 4))]
     pools = {"postal_code": ["AA", "BB", "CC"], "county_classification": ["urban", "rural", "suburban", "exurb"],
              "district": ["1", "2", "10", "11", "3"]}
+    if rng.random() < 0.4:
+        # the same label occurs as a level of two different effects (district "1" / class "1", state "AA" / class "AA"):
+        # a selection made for one effect says nothing about the other
+        pools = {"postal_code": ["AA", "BB", "1"], "county_classification": ["urban", "rural", "AA", "1"],
+                 "district": ["1", "2", "10", "AA", "urban"]}
     df = pd.DataFrame(dict(x1=rng.normal(2, 1, size=n), x2=rng.uniform(-1, 5, size=n),
                            baseline_normalized_margin=rng.uniform(-1, 1, size=n)))
     roles = rng.choice(["fit", "hold", "unexp", "nonmod"], size=n, p=[0.45, 0.35, 0.1, 0.1])
